@@ -152,6 +152,7 @@ type run struct {
 	cfg                 string
 	lose                int // POSTs of target lists still to lose
 	seedBase, cycleSeed int64
+	flipped             map[string]bool // targets whose health changed during the run
 	probesAtStart       int
 	stuck               []string
 }
@@ -420,12 +421,19 @@ func runBubble(tp *core.Tape, e *core.Env, sc *scen) {
 				e.Probe("cmdworld_converged")
 				e.ProbeN("cmdworld_cycles_to_converge", int(now.Sub(quietStart)/(10*time.Second))-4)
 				r.checkAPI()
+				if e.Property == "C20" {
+					r.checkProbes()
+				}
 				return
 			}
 			if now.Sub(quietStart) > 80*10*time.Second {
 				sort.Strings(r.stuck)
 				if e.Property == "C17" {
 					r.checkAPI() // C17 is about what is discovered and tracked, not about placement
+					return
+				}
+				if e.Property == "C20" {
+					r.checkProbes()
 					return
 				}
 				e.Violate("cmd-not-converged", stuckClass(r.stuck), "real commands (coordinator + %d sidecars, static shards): 80 fault-free cycles after the last change the end state is not reached: %v", sc.Shards, r.stuck)
@@ -496,6 +504,10 @@ func (r *run) apply(ev event) bool {
 		}
 	case "flip_health":
 		t.Healthy = !t.Healthy
+		if r.flipped == nil {
+			r.flipped = map[string]bool{}
+		}
+		r.flipped[t.Addr] = true
 		r.applySpec(t)
 		r.logf("event: %s healthy=%v", t.Addr, t.Healthy)
 	case "config_rev":
@@ -614,6 +626,47 @@ func (r *run) addrOfHash(p *shardProc, h uint64) string {
 		}
 	}
 	return fmt.Sprintf("hash-%d", h)
+}
+
+// checkProbes (C20 on the real commands): every discovered target that no shard holds has been probed by the
+// running coordinator, and one that has been failing all along is probed again and again (retry), never
+// twice at once.
+func (r *run) checkProbes() {
+	held := map[string]bool{}
+	for _, p := range r.sh {
+		if st, err := p.SC.GetStatus(); err == nil {
+			for h := range st {
+				held[r.addrOfHash(p, h)] = true
+			}
+		}
+	}
+	probes := map[string][]*disco.Probe{}
+	for _, p := range r.pn.Started[r.probesAtStart:] {
+		probes[p.Host] = append(probes[p.Host], p)
+	}
+	for _, t := range r.sc.Targets {
+		if !t.InSD || held[t.Addr] {
+			continue
+		}
+		ps := probes[t.Addr]
+		if len(ps) == 0 {
+			r.e.Violate("cmd-explorer-never-probed", "", "%s is discovered and held by no shard, but the explorer of the running coordinator never probed it", t.Addr)
+			return
+		}
+		if !t.Healthy && !r.flipped[t.Addr] && len(ps) < 2 {
+			r.e.Violate("cmd-failed-probe-not-retried", "", "%s has been failing since the start and is still discovered, but it was probed only once", t.Addr)
+			return
+		}
+		// (after a reload that changes a label the same address is a new target for the explorer, and the
+		// transport cannot tell the two apart: the one-at-a-time clause is judged on runs without reloads)
+		for i := 1; i < len(ps) && r.rev == 0; i++ {
+			if !ps[i-1].Done || ps[i].At.Before(ps[i-1].DoneAt) {
+				r.e.Violate("cmd-concurrent-probes", "", "%s: a probe started at %s while the previous one (started %s) had not returned", t.Addr, ps[i].At.Sub(r.start), ps[i-1].At.Sub(r.start))
+				return
+			}
+		}
+	}
+	r.e.Probe("cmdworld_probes_checked")
 }
 
 // checkAPI: what the coordinator's own API lists as active is what discovery currently says.
